@@ -1,7 +1,11 @@
 CHECK = {
     "pkg": ".", "tags": "e2e_testing", "hide": ["interface_emit_test.go"], "race": True, "races_judged_by_test": True,
     "files": ["netsim/ns_core_test.go", "netsim/ns_world_test.go", "netsim/c34_test.go"],
-    "run": "^TestC34", "env": {"GORACE": "log_path=race.log exitcode=0 halt_on_error=0"},
+    "run": "^TestC34",
+    # upstream's in-memory tun (overlay/tun_tester.go, test build only) sends on a channel its Close has
+    # closed when a packet is still in flight at shutdown; a kernel tun returns an error there. The harness
+    # quiesces traffic before stopping nodes; if it still happens the run is inconclusive, not a violation.
+    "infra_panics": [["send on closed channel", "overlay.(*TestTun).Write"]], "env": {"GORACE": "log_path=race.log exitcode=0 halt_on_error=0"},
     "quick": {"scale": 1, "shards": 1, "timeout": 900},
     "thorough": {"scale": 4, "shards": 8, "timeout": 2400},
     "engine": "E-race",
